@@ -101,7 +101,8 @@ pub struct Model {
 }
 
 fn join(module: &ItemPath, name: &str) -> String {
-    module.join(name.into()).to_string()
+    // `r#Foo` and `Foo` name the same item.
+    module.join(crate::inventory::plain_ident(name).as_str().into()).to_string()
 }
 
 struct Scope<'a> {
